@@ -1,6 +1,9 @@
 from props import P
 
 CFG = P(
+        variants={
+            "preempt": dict(pairs_text="16 JSON::serialize calls (4 values x 4 option sets) and 4 serialize->parse->compare round trips", harness=["harness/C04_preempt.cc"], harness_deps_extra=["harness/preempt_pure.hh", "engine/preempt.hh"], src_cxxflags={"JSON.cc": ["-fsanitize-coverage=trace-pc"]}, first=True, tiers=["quick", "thorough"], no_tls=["JSON.cc"]),
+        },
         harness=["harness/C04.cc"], harness_deps=["harness/C04_jsonref.hh", "harness/C04_r2.hh", "harness/C04_r3.hh"],
         srcs=["JSON.cc", "Strings.cc", "Filesystem.cc", "Process.cc", "Time.cc", "Encoding.cc"],
         oracle="C04", flags=[],
